@@ -33,6 +33,8 @@ MUTATORS = {"add", "clear", "discard", "remove", "update", "pop", "append", "ext
 
 
 def run(ck, m):
+    from rules.common import rule_memo_safety
+    rule_memo_safety(ck, m, "MEMO", "C18")          # first: a memoised helper also hides the code it wraps from the rules below
     scr = m.get(W, "UrwidImageScreen")
     ds = m.get(W, "UrwidImageScreen.draw_screen")
     # ---- R1 ----------------------------------------------------------------------------
@@ -234,8 +236,6 @@ def run(ck, m):
             ck.ob("R4", sa[0], norm(v) == "style_args" and len(zs) == 1 and norm(zs[0].targets[0].value) == "style_args" and zs[0].lineno > sa[0].lineno or (len(zs) == 1 and norm(zs[0].targets[0].value) in ("style_args", "self._ti_style_args")),
                   "the widget's z-index must be written into the very dict used as self._ti_style_args (after the format specifier was parsed)", stmt="UrwidImage.__init__: widget-owned style args take precedence")
 
-    from rules.common import rule_memo_safety
-    rule_memo_safety(ck, m, "MEMO", "C18")
 
 
 MUTANTS = [
